@@ -137,17 +137,27 @@ def cmdText (i : Nat) (c : Cmd) : String :=
          nl i ++ "}" ++ nl i ++ "stack.push(cur, n);" ++ nl i ++ s!"cur = {c.dots};") ++
   areaText c.areaCount i c.area
 
-/-- the dispatch tree over the blocks `start … start + size - 1`: halve, `if state < mid { … } else { … }` -/
-def dispatchText (blocks : Array (List Cmd)) : Nat → Nat → Nat → Nat → String
-  | 0, _, _, _ => ""
-  | fuel+1, i, start, size =>
-    if size ≤ 1 then String.join ((blocks.getD start []).map (cmdText i))
-    else
-      nl i ++ s!"if state < {size / 2 + start} \{" ++
-      dispatchText blocks fuel (i + 1) start (size / 2) ++
-      nl i ++ "} else {" ++
-      dispatchText blocks fuel (i + 1) (start + size / 2) (size - size / 2) ++
-      nl i ++ "}"
+/-- the dispatch over the block index: a binary tree of `if state < mid { … } else { … }` -/
+inductive DTree where
+  | leaf (block : List Cmd)
+  | node (mid : Nat) (l r : DTree)
+
+/-- the tree over the blocks `start … start + size - 1`: halve until one block is left -/
+def mkTree (blocks : Array (List Cmd)) : Nat → Nat → Nat → DTree
+  | 0, start, _ => .leaf (blocks.getD start [])
+  | fuel+1, start, size =>
+    if size ≤ 1 then .leaf (blocks.getD start [])
+    else .node (size / 2 + start) (mkTree blocks fuel start (size / 2)) (mkTree blocks fuel (start + size / 2) (size - size / 2))
+
+/-- which block the emitted `if` cascade runs when the variable `state` has the given value -/
+def DTree.select : DTree → Nat → List Cmd
+  | .leaf b, _ => b
+  | .node mid l r, st => if st < mid then l.select st else r.select st
+
+def treeText : Nat → DTree → String
+  | i, .leaf b => String.join (b.map (cmdText i))
+  | i, .node mid l r =>
+    nl i ++ s!"if state < {mid} \{" ++ treeText (i + 1) l ++ nl i ++ "} else {" ++ treeText (i + 1) r ++ nl i ++ "}"
 
 def restoreText (r : Restore) (opt : Bool) : String :=
   String.join (r.stacks.map (fun (i, v) =>
@@ -165,7 +175,7 @@ def emit (p : Prog) : String :=
   (if p.hasCode then
     (match p.restore with | some r => restoreText r p.opt | none => "") ++
     s!"\n    while state < {p.blocks.length} \{" ++
-    dispatchText p.blocks.toArray (p.blocks.length + 1) 2 0 p.blocks.length ++
+    treeText 2 (mkTree p.blocks.toArray p.blocks.length 0 p.blocks.length) ++
     "\n        state += 1;\n    }"
    else "") ++
   "\n}"
